@@ -10,3 +10,12 @@ pub(crate) use send_blocks_proof::{verify_extra_hash, SendBlocksProofProcess};
 pub(crate) use send_last_state::SendLastStateProcess;
 pub(crate) use send_last_state_proof::{verify_mmr_proof, SendLastStateProofProcess};
 pub(crate) use send_transactions_proof::SendTransactionsProofProcess;
+
+#[cfg(feature = "verif")]
+#[allow(unused_imports)]
+pub(crate) mod verif_exports {
+    pub(crate) use super::send_last_state_proof::{
+        check_if_response_is_matched, verify_tau, verify_total_difficulty, EpochDifficultyTrend,
+        EstimatedLimit,
+    };
+}
